@@ -517,7 +517,7 @@ def rule_R9(text, args, log):
                     cut = t[2]
                     break
         cond = inner if cut is None else inner[:cut]
-        text = text[:m.start()] + 'assert(' + cond.strip() + ')' + text[cl + 1:]
+        text = text[:m.start()] + '/*vxdbg*/assert(' + cond.strip() + ')' + text[cl + 1:]
         n += 1
     for mac in ('unreachable', 'panic', 'unimplemented', 'todo'):
         while True:
@@ -852,9 +852,15 @@ def find_anchor(text, toks, pat, nth, where):
         # optional content filter `stmt:KIND [NAME] ~ text`: only statements whose own source text contains `text`
         # (token-normalised) count; makes the ordinal independent of unrelated statements of the same kind
         body_has = None
+        head_only = False
         if ' ~ ' in pat:
             pat0, body_has = pat.split(' ~ ', 1)
             body_has = norm_tokens(body_has)
+        elif ' ^ ' in pat:
+            # `stmt:if ^ text`: like `~`, but only the statement's HEAD (up to its first block) is searched
+            pat0, body_has = pat.split(' ^ ', 1)
+            body_has = norm_tokens(body_has)
+            head_only = True
         else:
             pat0 = pat
         spec = pat0[5:].split()
@@ -870,6 +876,19 @@ def find_anchor(text, toks, pat, nth, where):
             if kd == kind and (name is None or nm == name):
                 if body_has is not None:
                     e = stmt_end(toks, k)
+                    if head_only:
+                        d = 0
+                        q = k
+                        while q <= e:
+                            u = toks[q]
+                            if u[0] == 'punct' and u[1] in '([':
+                                d += 1
+                            elif u[0] == 'punct' and u[1] in ')]':
+                                d -= 1
+                            elif u[0] == 'punct' and u[1] == '{' and d == 0:
+                                break
+                            q += 1
+                        e = max(k, q - 1)
                     if body_has not in norm_tokens(text[toks[k][2]:toks[e][3]]):
                         continue
                 hits.append(k)
@@ -1217,8 +1236,34 @@ def extract_item(repo_root, rel, container, kind, name, opts, unit_rules, sectio
             # statement region: the k-th statement matching a structural anchor (e.g. stmt=stmt:let prev, stmtnth=1),
             # optionally through the statement matching `upto=` (inclusive), becomes the body; `tail=` (template text, e.g.
             # the name of the bound variable) is appended as the result expression
-            k0 = find_anchor(ftxt, ftoks, opts['stmt'], int(opts.get('stmtnth', '1')), where + ' region stmt')
+            if opts['stmt'].startswith('after:'):
+                # the region starts with the statement FOLLOWING the anchored one (robust when the lifted statement itself is
+                # the one most likely to be rewritten)
+                ka = find_anchor(ftxt, ftoks, opts['stmt'][6:], int(opts.get('stmtnth', '1')), where + ' region stmt')
+                k0 = stmt_end(ftoks, ka) + 1
+                while k0 < len(ftoks) and ftoks[k0][0] in ('ws', 'lcomment', 'bcomment'):
+                    k0 += 1
+                if k0 >= len(ftoks) or (ftoks[k0][0] == 'punct' and ftoks[k0][1] in '})]'):
+                    raise ExtractError('anchor-lost', '%s: no statement follows the anchored one' % where)
+            else:
+                k0 = find_anchor(ftxt, ftoks, opts['stmt'], int(opts.get('stmtnth', '1')), where + ' region stmt')
             e0 = stmt_end(ftoks, k0)
+            if 'toend' in opts:
+                # through the last statement of the enclosing block
+                d = 0
+                q = k0
+                while q < len(ftoks):
+                    t = ftoks[q]
+                    if t[0] == 'punct' and t[1] in '([{':
+                        d += 1
+                    elif t[0] == 'punct' and t[1] in ')]}':
+                        if d == 0:
+                            break
+                        d -= 1
+                    q += 1
+                e0 = q - 1
+                while e0 > k0 and ftoks[e0][0] in ('ws', 'lcomment', 'bcomment'):
+                    e0 -= 1
             if 'upto' in opts:
                 k1 = find_anchor(ftxt, ftoks, opts['upto'], int(opts.get('uptonth', '1')), where + ' region upto')
                 if k1 < k0:
@@ -1233,8 +1278,46 @@ def extract_item(repo_root, rel, container, kind, name, opts, unit_rules, sectio
                 while e0 > k0 and ftoks[e0][0] in ('ws', 'lcomment', 'bcomment'):
                     e0 -= 1
             raw = ftxt[ftoks[k0][2]:ftoks[e0][3]]
+            init_txt = ''
+            if 'init' in opts:
+                # entry state from the context: the (top-level) `let` statement named by init= is copied in front of the lifted
+                # statements, so the region starts from the variable's real initial value instead of an arbitrary parameter.
+                # Checked: the statement precedes the region and the variable is not mentioned between the start of the
+                # enclosing match arm (or the init statement, if there is no arm) and the region.
+                ki = find_anchor(ftxt, ftoks, opts['init'], int(opts.get('initnth', '1')), where + ' region init')
+                ei = stmt_end(ftoks, ki)
+                if ei >= k0:
+                    raise ExtractError('anchor-lost', '%s: init= statement does not precede the region' % where)
+                var = opts['init'].split()[-1]
+                lo = ei + 1
+                pos = k0 - 1
+                depth = 0
+                while pos > ei:
+                    t = ftoks[pos]
+                    if t[0] == 'punct' and t[1] == '}':
+                        depth += 1
+                    elif t[0] == 'punct' and t[1] == '{':
+                        if depth == 0:
+                            q = pos - 1
+                            while q > ei and ftoks[q][0] in ('ws', 'lcomment', 'bcomment'):
+                                q -= 1
+                            if ftoks[q][1] == '>' and ftoks[q - 1][1] == '=':
+                                lo = pos
+                                break
+                        else:
+                            depth -= 1
+                    pos -= 1
+                for q in range(lo, k0):
+                    if ftoks[q][0] == 'id' and ftoks[q][1] == var:
+                        raise ExtractError('anchor-lost', '%s: `%s` is mentioned between its initialisation and the lifted region' % (where, var))
+                init_txt = strip_comments(ftxt[ftoks[ki][2]:ftoks[ei][3]]) + '\n'
+                raw = ftxt[ftoks[ki][2]:ftoks[ei][3]] + '\n' + raw
+                log.append(('R18', 'entry state: `%s` copied in front of the region (not mentioned in between: checked)' % norm_ws(init_txt)))
+                raw_body = init_txt + strip_comments(ftxt[ftoks[k0][2]:ftoks[e0][3]])
+            else:
+                raw_body = strip_comments(raw)
             sha = hashlib.sha256(raw.encode()).hexdigest()
-            body = '{\n' + strip_comments(raw) + '\n' + opts.get('tail', '') + '\n}'
+            body = '{\n' + raw_body + '\n' + opts.get('tail', '') + '\n}'
             header = None
             rest_sections = []
             for sk, sa, sb in sections:
